@@ -158,6 +158,26 @@ func updateConnContext(ctx context.Context, c net.Conn) context.Context {
 	return ctx
 }
 
+// tlsStateHandler fills in Request.TLS from the connection's metadata when the
+// HTTP stack left it nil. Every connection served here is TLS, but net/http only
+// recognises a bare *tls.Conn (HTTP/1.1 connections are wrapped by
+// hack.TLSClientHelloConn) and http2 drops it for ":scheme: http" requests.
+type tlsStateHandler struct{ handler http.Handler }
+
+func (h tlsStateHandler) ServeHTTP(w http.ResponseWriter, r *http.Request) {
+	if r.TLS == nil {
+		if md, ok := metadata.FromContext(r.Context()); ok {
+			cs := md.ConnectionState
+			r.TLS = &cs
+		}
+	}
+	if h.handler == nil {
+		http.DefaultServeMux.ServeHTTP(w, r)
+		return
+	}
+	h.handler.ServeHTTP(w, r)
+}
+
 func (server *Server) serveHTTP1() {
 	err := server.HTTPServer.Serve(server.http1ConnChannelListener)
 
@@ -198,6 +218,7 @@ func (server *Server) setupServe() {
 
 	// start HTTP/1.1 server
 	if server.http1ConnChannelListener == nil {
+		server.HTTPServer.Handler = tlsStateHandler{server.HTTPServer.Handler}
 		server.http1ConnChannelListener = hack.NewChannelListener(server.ctx)
 		go server.serveHTTP1()
 	}
